@@ -1,3 +1,4 @@
+import Amqp.Gen.Locks
 import Amqp.Lemmas.Heartbeat
 /-!
 # C12 — heartbeats keep the link alive and detect a dead peer within bounds
@@ -483,5 +484,14 @@ example : run (init (some 2)) [.start true, .adv 3] = none := by rfl
 example :
     (run (init (some 2)) [.setOpen true, .start true, .start true, .stop, .adv 2, .fire 0]).map
       (fun s => (s.running, s.hbs, s.timers, s.multi)) = some (false, 0, [], true) := by rfl
+
+/-- **Heartbeats are not held up by callers waiting for the broker**: the timer thread that sends the
+    heartbeat and checks for life signs takes only the heartbeat's own lock and the socket write lock -
+    never the connection, channel or RPC lock, which `Connection.channel()`, `Connection.close()` and the
+    synchronous channel operations hold for a whole round trip to the broker.  (Lock graph regenerated from
+    the source on every run.) -/
+theorem timer_thread_locks :
+    Gen.Locks.timerAcquires.all (fun l => l == "Heartbeat._lock" || l == "IO._wr_lock") = true ∧
+    Gen.Locks.timerAcquires.all (fun l => !Gen.Locks.heldWhileWaitingForReader.contains l) = true := by decide
 
 end Amqp.C12
